@@ -189,7 +189,9 @@ func Sel(t *rapid.T, label string) uint8 {
 // SelArg draws the argument of a selector write: any uint8, the registers being
 // addressed modulo 64 (255 is what d.SetCSel(d.CSel()-1) passes at CSEL 0).
 func SelArg(t *rapid.T, label string) uint8 {
-	if rapid.IntRange(0, 5).Draw(t, label+".wide") == 0 {
+	if w := rapid.IntRange(0, 11).Draw(t, label+".wide"); w == 0 {
+		return uint8(rapid.IntRange(64, 255).Draw(t, label+".any")) // every value names a register: modulo 64
+	} else if w == 1 {
 		return rapid.SampledFrom([]uint8{64, 65, 70, 127, 128, 129, 191, 192, 254, 255}).Draw(t, label)
 	}
 	return Sel(t, label)
